@@ -301,7 +301,7 @@ async fn run_case(spec: &CaseSpec) -> CaseOut {
 		if r.chance(1, 3) {
 			let noise = match r.below(5) {
 				// an array that holds nothing but plain notifications (a server that frames its notifications in arrays)
-				4 => array_of(&(0..1 + r.usize(3)).map(|k| plain_notif("some_method", json!(["noise-in-array", k]))).collect::<Vec<_>>()),
+				4 => array_of(&(0..1 + r.usize(3)).map(|k| plain_notif("some_method", json!({"noise-in-array": k}))).collect::<Vec<_>>()),
 				0 => plain_notif("some_method", json!(["noise"])),
 				1 => sub_notif("m", &json!("unknown-sub"), json!({"tag": "noise"})),
 				2 => sub_close("m", &json!(987654), json!("closing an unknown subscription")),
